@@ -44,7 +44,6 @@ Write(s, n) ==
 (* dataReceived on side s with len bytes which are the peer's stream from offset off *)
 Recv(s, off, len) ==
     /\ lost[s] = 0                          \* no data after connectionLost
-    /\ ~rdl[s]                              \* nor after the end of the stream was announced
     /\ len >= 1
     /\ off = rcvd[s]                        \* in order, nothing skipped, nothing repeated
     /\ off + len <= sent[Peer(s)]           \* only bytes that were written
